@@ -313,7 +313,47 @@ def check_shutdown(ctx):
     R.fieldw_within(ctx, inst + "/flag", "WriteBuffer", "shutdown", ["WriteBuffer::new", "WriteBuffer::initiate_shutdown", "WriteBuffer::finish_shutdown"], floor=3)
 
 
+def check_progress(ctx):
+    """force_flush re-sends a request for as long as a worker answers Ok(true) and has no retry bound of its own: the
+    out-of-space branch of flush_worker_shards may answer "ask me again" only when the retirement pass it just ran made
+    progress, i.e. the released-sector counter moved relative to a snapshot taken at entry (a cumulative counter compared with
+    anything else is true forever once any sector was ever released)"""
+    inst = "C18.progress"
+    b = ctx.fn("write_buffer::flush_worker_shards", inst)
+    if b is None:
+        return
+    def on_rel(bb, n):
+        return R.recv_expr(bb, n).has_field("RetirementQueue", "released_sectors") or R.recv_expr(bb, n).has_field(None, "released_sectors")
+    loads = ctx.sites(b, R.call("Atomic::load", "AtomicU64::load", "AtomicUsize::load").filter(on_rel, "released_sectors.load"), inst, exact=2)
+    pw = ctx.sites(b, R.call("write_buffer::process_write_batch"), inst, exact=1)
+    fp = ctx.sites(b, R.call("write_buffer::flush_pending_deletions"), inst, exact=2)
+    if len(loads) != 2:
+        return
+    snap, cur = sorted(loads)
+    R.dom(ctx, inst, b, [snap], pw + fp, "the released-sector snapshot is taken before any batch is written or any retirement is flushed", a_desc="released_sectors snapshot")
+    fp_before = [x for x in fp if cur in A.reach(b, A.succs(b, x))[0]]
+    ctx.check(len(fp_before) == 1, inst, "anchor", b.path, "one retirement pass precedes the second counter read", None)
+    R.dom(ctx, inst, b, fp_before, [cur], "the counter is re-read only after the retirement pass", a_desc="flush_pending_deletions")
+    def moved(e):
+        return e.k == "bin" and e.extra == "Eq" and {c.nid for c in e.calls()} >= {snap, cur} and \
+            all(x.k == "call" and x.nid in (snap, cur) for x in e.a)
+    sw = A.pred_switches(b, moved)
+    ctx.check(len(sw) == 1, inst, "PIN", b.path, "progress is `counter now != counter at entry` (both operands are loads of released_sectors)", None)
+    again = [n.id for n in b.nodes if n.kind == "assign" and not n.ev["dst"]["p"] and n.ev["dst"]["l"] == 0 and n.ev.get("rv") == "agg" and n.ev.get("var") == "Ok"
+             and n.ev["ops"] and n.ev["ops"][0].get("k") == "const" and n.ev["ops"][0].get("val") == 1]
+    ctx.check(len(again) == 1, inst, "anchor", b.path, "one unconditional `Ok(true)` (ask me again) return (found %d)" % len(again), None)
+    R.guard(ctx, inst, b, again, A.pred_edges(b, moved, "false"), "`ask me again` after an out-of-space failure only if sectors were released during this call")
+    # the counter only ever grows, by the number of sectors actually released
+    n_w = 0
+    for bb in ctx.prog.product_bodies():
+        for n in R.call("Atomic::fetch_add", "Atomic::store", "Atomic::fetch_sub", "Atomic::swap", "AtomicU64::fetch_add", "AtomicU64::store").filter(on_rel, "released_sectors write")(bb):
+            n_w += 1
+            ctx.check(R.call_matches(bb.nodes[n].ev, "fetch_add"), inst, "PIN", bb.path, "released_sectors is only ever incremented", bb.where(n))
+    ctx.check(n_w >= 1, inst, "anchor", "-", "writers of released_sectors (>= 1, found %d)" % n_w, None)
+
+
 def check(ctx):
+    check_progress(ctx)
     g, groups = check_lockorder(ctx)
     check_wait(ctx, g, groups)
     check_poll(ctx, groups)
